@@ -144,3 +144,6 @@ Definition find_sequence_by_tag (cat : catalog) (c : coll) (t : Z) (p : Z)
   | None => KeyError
   | Some ds => Ok (merge_sections c p ds)
   end.
+
+(* reset(): a fresh _results_by_path *)
+Definition reset : coll := [].
